@@ -24,6 +24,7 @@ type Scenario struct {
 	SelectCost  bool
 	MaxExecs    int // cap on executions (0 = default)
 	MaxSteps    int
+	Race        bool // happens-before race detection on goat's field/map accesses (C15)
 	Once        bool // pure enumeration inside the body: execute exactly once, no schedule search
 	RawRun      func() (viol []vsched.Violation, obs []string, inputs int64) // runs outside the scheduler (real sockets): input enumeration only
 	Horizon     time.Duration
@@ -89,7 +90,7 @@ type explorer struct {
 
 func cfgOf(sc *Scenario, prefix []int, verbose bool) vsched.Config {
 	return vsched.Config{Prefix: prefix, MaxSteps: sc.MaxSteps, Verbose: verbose, Horizon: sc.Horizon,
-		PreemptCost: sc.PreemptCost, SelectCost: sc.SelectCost}
+		PreemptCost: sc.PreemptCost, SelectCost: sc.SelectCost, Race: sc.Race}
 }
 
 // Explore runs the scenario under every schedule within its bound.
